@@ -13,7 +13,7 @@ MC_CFG = """CONSTANTS
   Faults = {%s}
   Dev = {}
 SPECIFICATION Spec
-INVARIANTS ExecOnlyUnderFilter FailureExitsNonZeroWithoutTarget HappyPathRuns TraceOrder
+INVARIANTS ExecOnlyUnderFilter FailureExitsNonZeroWithoutTarget WholeFileEnforced HappyPathRuns TraceOrder
 CHECK_DEADLOCK FALSE
 """ % ", ".join('"%s"' % f for f in FAULTS)
 TRACE_CFG = """CONSTANTS
